@@ -176,7 +176,7 @@ def main():
     for d in sorted(glob.glob(os.path.join(lib.VERIF, 'seeded', prop + '_*', 'demo.sh'))):
         try: meta = json.load(open(os.path.join(os.path.dirname(d), 'meta.json')))
         except Exception: meta = {}
-        if meta.get('demo_arg') != 'worktree': demos.append(d)
+        if meta.get('demo_arg') != 'worktree' and not os.environ.get('VERIF_SKIP_DEMOS'): demos.append(d)      # the self test of a seeded change measures the generic machinery, not the change's own demonstration
     if getattr(mod, 'NEEDS_BIN', False) or demos:
         ok, out = lib.build_jawk_bin()
         if not ok: log(out); print('jawk build failed'); sys.exit(2)
